@@ -136,6 +136,7 @@ inline LogIt operator+(std::ptrdiff_t d, const LogIt& i) { return i + d; }
 //  4 as 0 with comp, mwma, mwmsa AND num_threads defaulted (std::less<Elem>, MWMA_ALGORITHM_DEFAULT, MWMSA_DEFAULT,
 //    std::thread::hardware_concurrency()); the case file must carry exactly these values (see --hw)
 //  5 as 0 with only num_threads defaulted
+//  6 as 0 but calling tlx::parallel_multiway_merge_base<Stable> directly (Stable = entry is odd; no switches)
 //  (element iterators whose difference_type is not std::ptrdiff_t do not compile: the per-thread call hands
 //   std::vector<pair>::iterator to multiway_merge_4_combined, which mixes both difference_types in std::min)
 inline bool operator<(const Elem& a, const Elem& b) { return a.key() < b.key(); }
@@ -336,7 +337,10 @@ int main(int argc, char** argv) {
         default: {
             std::vector<Pair> work(seqs);
             LogIt ret;
-            if (profile == 3) ret = call_entry(entry, work.begin(), work.end(), tgt, static_cast<std::ptrdiff_t>(size), CountingLess(&comp_calls), a, sp, static_cast<size_t>(p), 0);
+            if (profile == 6) {
+                if (entry & 1) ret = tlx::parallel_multiway_merge_base<true>(work.begin(), work.end(), tgt, static_cast<std::ptrdiff_t>(size), ByKey(), a, sp, static_cast<size_t>(p));
+                else ret = tlx::parallel_multiway_merge_base<false>(work.begin(), work.end(), tgt, static_cast<std::ptrdiff_t>(size), ByKey(), a, sp, static_cast<size_t>(p));
+            } else if (profile == 3) ret = call_entry(entry, work.begin(), work.end(), tgt, static_cast<std::ptrdiff_t>(size), CountingLess(&comp_calls), a, sp, static_cast<size_t>(p), 0);
             else ret = call_entry(entry, work.begin(), work.end(), tgt, static_cast<std::ptrdiff_t>(size), ByKey(), a, sp, static_cast<size_t>(p),
                                   profile == 4 ? 2 : profile == 5 ? 1 : 0);
             oc.ret = ret - tgt;
